@@ -554,7 +554,7 @@ def norm_sql(txt):
     txt = re.sub(r"\s+", " ", txt).strip()
     out, i = [], 0
     while True:
-        m = re.compile(r"CREATE (?:[A-Z']+ )*?TABLE ").search(txt, i)
+        m = re.compile(r"CREATE (?:\S+ )*?TABLE ").search(txt, i)
         if not m:
             out.append(txt[i:])
             break
